@@ -226,3 +226,31 @@ for d in ('delta_H', 'reactants_E'):
                  ('TS-enthalpy-of-the-second-reaction',
                   "(r1.get_delta_HoRT(act=True, T=T, P=P), r2.get_delta_HoRT(act=True, T=T, P=P))[1] == "
                   "bep.get_EoRT_act(reaction=r2, rev=False, T=T, P=P)")])
+
+# ---- the reaction classes that re-implement the dimensional changes (a BEP reads its descriptor through them) ---------------
+for cls in (RX + 'Reaction', RX + 'ChemkinReaction', OM + 'SurfaceReaction'):
+    short = cls.split(':')[1]
+    for rev in (False, True):
+        for act in (False, True):
+            for g, dimless in (('H', 'HoRT'), ('G', 'GoRT')):
+                contract(cls + '.get_delta_%s' % g, P, label='[rev=%s,act=%s]' % (rev, act),
+                         args=dict(self=rxn(cls, True), units=Const('kcal/mol'), T=T, rev=Const(rev), act=Const(act), P=PR),
+                         requires=['T > 0'],
+                         ensures=[('same-direction-state-and-conditions',
+                                   "result == self.get_delta_%s(rev=rev, act=act, T=T, P=P) * const.R('kcal/mol/K') * T" % dimless)],
+                         cross_check=False)
+    for d in ('delta_H', 'rev_delta_H'):
+        val = "reaction.get_delta_HoRT(rev=%s, T=T, P=P) * const.R('kcal/mol/K') * T" % (d == 'rev_delta_H')
+        contract(BEPQ + '._get_descriptor_val', P, label='%s,reaction-class=%s' % (d, short),
+                 args=dict(self=bep(d), reaction=bep_rxn(d, cls), T=T, P=PR), requires=BREQ,
+                 ensures=[('descriptor-in-the-named-direction', 'result == ' + val)], cross_check=False)
+        if cls != RX + 'Reaction':
+            lemma('BEP:fwd-rev=delta[%s,%s]' % (d, short), P,
+                  forall=dict(self=bep(d), reaction=bep_rxn(d, cls), T=T, P=PR), given=BREQ,
+                  prove=[('forward-minus-reverse-barrier-is-the-reaction-change',
+                          "self.get_E_act(units='kcal/mol', reaction=reaction, rev=False, T=T, P=P)"
+                          " - self.get_E_act(units='kcal/mol', reaction=reaction, rev=True, T=T, P=P) == "
+                          "reaction.get_delta_HoRT(T=T, P=P) * const.R('kcal/mol/K') * T")])
+
+from contracts import helpers
+helpers.install(P, 'kwargs', 'numpy_op', 'references')
